@@ -17,6 +17,7 @@ use p2panda_store::{SqliteStore, Transaction};
 use p2panda_stream::orderer::Orderer;
 use p2panda_stream::Processor;
 
+use crate::minv::MinV;
 use crate::gate::{drive_next, key, make_item, wipe, Ctl, Ctx, Gate, Item, NextEnd};
 
 #[allow(dead_code)]
@@ -76,6 +77,14 @@ impl Case {
             self.level,
             self.delivery,
             if self.drain_each { "after every delivery" } else { "at the end" }
+        )
+    }
+    /// smaller = simpler reproduction
+    fn size(&self) -> (u64, u64, u64) {
+        (
+            self.delivery.len() as u64,
+            self.lists.iter().map(|l| l.len() as u64).sum::<u64>(),
+            if self.level == "inner" { 0 } else { 1 } + if self.drain_each { 0 } else { 2 },
         )
     }
     fn has_repeat(&self) -> bool {
@@ -471,20 +480,20 @@ fn judge_events(case: &Case, evs: &[Ev]) -> Judged {
     out
 }
 
-fn judge(rep: &mut Report, r: &CaseResult) -> Option<BTreeSet<usize>> {
+fn judge(rep: &mut Report, mv: &mut MinV, r: &CaseResult) -> Option<BTreeSet<usize>> {
     let case = &r.case;
     let evs = match &r.evs {
         Ok(e) => e,
         Err(e) => {
             let class = if e.starts_with("panic") { "panic" } else { "error" };
             let short: String = e.chars().take(50).collect::<String>().replace(' ', "-");
-            rep.violation(format!("{class}/{short}"), format!("{e}; {}", case.describe()), case.to_json());
+            mv.add(format!("{class}/{short}"), case.size(), || format!("{e}; {}", case.describe()), || case.to_json());
             return None;
         }
     };
     let j = judge_events(case, evs);
     for (key, what) in &j.violations {
-        rep.violation(key.clone(), format!("{what}; {}; observed {:?}", case.describe(), evs), case.to_json());
+        mv.add(key.clone(), case.size(), || format!("{what}; {}; observed {:?}", case.describe(), evs), || case.to_json());
     }
     if j.unblocked_later {
         rep.nontrivial(&(case.level, &case.lists, &case.delivery, case.drain_each));
@@ -507,7 +516,9 @@ pub fn run(mut rep: Report) -> i32 {
                     let r = exec_case(&case);
                     println!("replay: {}", case.describe());
                     println!("observed: {:?}", r.evs);
-                    judge(&mut rep, &r);
+                    let mut mv = MinV::new();
+                    judge(&mut rep, &mut mv, &r);
+                    mv.flush(&mut rep);
                 }
                 None => rep.machinery_error("replay file has no C11 case".into()),
             },
@@ -538,6 +549,7 @@ pub fn run(mut rep: Report) -> i32 {
     let mut by_level: BTreeMap<&'static str, u64> = BTreeMap::new();
     let mut viol_by_level: BTreeMap<String, u64> = BTreeMap::new();
     let mut differential_pairs = 0u64;
+    let mut mv = MinV::new();
     for (part, wall) in &parts {
         let cfg = DfsCfg {
             max_dev: 0,
@@ -554,6 +566,7 @@ pub fn run(mut rep: Report) -> i32 {
             let vb = &mut viol_by_level;
             let finals = &mut finals;
             let with_repeats = &mut with_repeats;
+            let mv = &mut mv;
             let st = dfs_par(
                 &cfg,
                 |ch| exec_case(&pick_case(ch, part)),
@@ -561,7 +574,7 @@ pub fn run(mut rep: Report) -> i32 {
                     if rep_ref.want_sample() && r.case.n == 3 && r.case.has_repeat() && r.case.delivery.len() == 4 && r.case.lists[0].is_empty() {
                         rep_ref.sample(json!({"case": r.case.describe(), "observed": format!("{:?}", r.evs)}));
                     }
-                    match judge(rep_ref, &r) {
+                    match judge(rep_ref, mv, &r) {
                         Some(f) => {
                             if r.case.has_repeat() {
                                 with_repeats.push(r.case.clone());
@@ -583,16 +596,18 @@ pub fn run(mut rep: Report) -> i32 {
             if let Some(b) = finals.get(&(d.lists.clone(), d.delivery.clone(), d.drain_each)) {
                 differential_pairs += 1;
                 if a != b {
-                    rep.violation(
-                        "repeated-entry-changes-outcome",
-                        format!("released {a:?} with the lists as given, {b:?} with de-duplicated lists; {}", c.describe()),
-                        c.to_json(),
+                    mv.add(
+                        "repeated-entry-changes-outcome".into(),
+                        c.size(),
+                        || format!("released {a:?} with the lists as given, {b:?} with de-duplicated lists; {}", c.describe()),
+                        || c.to_json(),
                     );
                 }
             }
         }
     }
     Ctx::drain_pool();
+    mv.flush(&mut rep);
     rep.set("cases_per_level", json!(by_level));
     rep.set("violating_cases_per_level", json!(viol_by_level));
     rep.set("differential_pairs_compared", json!(differential_pairs));
